@@ -72,9 +72,13 @@ def run(rep, tier, seed, budget):
                 spec.append(BODY)
             spec.append("]")
         s = make_slots("c", spec) if spec else ""
-        items = list(sfu.split_selfies(s))
-        ln = sfu.len_selfies(s)
-        alpha = sfu.get_alphabet_from_selfies([s]) if with_alphabet else None
+        try:
+            items = list(sfu.split_selfies(s))
+            ln = sfu.len_selfies(s)
+            alpha = sfu.get_alphabet_from_selfies([s]) if with_alphabet else None
+        except Exception:  # noqa: a well-formed string must not make the utilities raise
+            col.candidate({"prop": "C14", "kind": "tok_utils", "strings": [model_value(eng.current_model(), s)]})
+            return
         # independent expectation, structurally (bodies stay symbolic)
         n_items = zint(ln)
         joined = symstr.sym_join("", items) if items else ""
